@@ -10,7 +10,8 @@ state after a failed operation (what a later reopen sees) is part of the model.
 
 Database keys are abstract (`PmKey`); the code encodes `(depth, index)` by Cantor pairing into a
 `u64` and reserves `u64::MAX-1`, `u64::MAX` and `b"metadata"` — injectivity of that encoding on the
-trees in use is a modelling assumption recorded in DESIGN.md.
+trees in use is proved in `ZkProofs/C16Keys.lean` (`C16_db_keys_injective`: every tree of depth at most 31, no wrap-around
+in the `usize` arithmetic, the metadata slot is not a node).
 -/
 namespace Zk.Tree
 
